@@ -14,6 +14,10 @@ class Undecided(Exception):
     pass
 
 
+class NeedDecision(Exception):
+    pass
+
+
 class _Break(Exception):
     pass
 
@@ -37,6 +41,9 @@ class Interp:
         self.steps = 0
         self.max_steps = max_steps
         self.ret = None
+        self.oracle = None     # prescribed outcomes of conditions on symbolic values (run_all)
+        self.decisions = 0
+        self.taken = []
         for p in func.params:
             self.env[p["id"]] = "param:" + p["name"]
 
@@ -53,6 +60,14 @@ class Interp:
             return v
         if isinstance(v, int):
             return v != 0
+        # a condition on a symbolic value: follow the decision the driver prescribes for this run (see run_all)
+        if self.oracle is not None:
+            if self.decisions < len(self.oracle):
+                d = self.oracle[self.decisions]
+                self.decisions += 1
+                self.taken.append((v, d))
+                return d
+            raise NeedDecision()
         raise Undecided("condition on a symbolic value %r" % (v,))
 
     def lvalue(self, n):
@@ -298,3 +313,25 @@ class Interp:
             return
         else:
             self.ev(s)
+
+
+def run_all(cx, func, make_hook, max_paths=16):
+    """Execute `func` once per combination of outcomes of its conditions on symbolic values (conditions on constants are
+    decided as usual).  make_hook() returns a fresh call hook (with its own state) for each run.  Returns the list of
+    finished interpreters, each with .taken = [(condition value, outcome)]; raises Undecided beyond max_paths paths."""
+    done = []
+    work = [[]]
+    while work:
+        oracle = work.pop()
+        ip = Interp(cx, func, make_hook())
+        ip.oracle = list(oracle)
+        try:
+            ip.run()
+        except NeedDecision:
+            work.append(oracle + [True])
+            work.append(oracle + [False])
+            if len(work) + len(done) > max_paths:
+                raise Undecided("more than %d paths through conditions on symbolic values" % max_paths)
+            continue
+        done.append(ip)
+    return done
